@@ -8,6 +8,11 @@ their public API in process.  Two streams:
 * float  - arbitrary floats: the model is not run (every line is `(noop)`), only the oracle judges, with
            a tolerance where rounding can enter.
 
+The model the driver runs is the cache layer of M-Geom (`cstep`, lean/DefconModel/GeomCache.lean): cached component
+bounds / control bounds and cached glyph area, evicted by edits of the base glyphs.  The ops `kCached` / `gAreaCached`
+compare the tables with `hasCachedRepresentation` of the real objects.  Histories flagged `watch` carry an observer
+that reads the geometry from INSIDE the notifications the mutations post (`_Watcher`); they are judged by the oracle only.
+
 The oracle (second half of this file) is written against the property text, with its own reading of
 a UFO point list (segments, implied points), exact polynomial integration for areas, derivative
 roots for curve extrema and a winding-number test; it shares no code or formula with the model.
@@ -20,8 +25,12 @@ from sexp import Atom, opt
 MODEL = "geom"
 SHRINKABLE = True
 RULE = ("op sequences over 1-4 glyphs (polygons, open paths, cubics, quadratics with implied points, all-off-curve "
-        "contours, degenerate and a few malformed contours, nested/flipped/missing components, anchors, image), "
-        "observations interleaved with move/reverse/setStartPoint/clockwise/margin/metric mutations; "
+        "contours, degenerate and a few malformed contours, components nested up to 3 levels with dyadic / flipped / "
+        "singular transformations and missing bases, anchors, image), observations interleaved with "
+        "move/reverse/setStartPoint/clockwise/margin/metric mutations, point edits, assignments of a component's "
+        "transformation and base glyph, deletion / re-adding / renaming of glyphs; edits of a base glyph are followed by "
+        "reads (bounds, controlPointBounds, area, margins, cache probes) of and margin assignments on the glyphs that "
+        "reference it; "
         "non-trivial = at least one mutation that changed something AND at least one later observation of the same "
         "glyph that returned a value; distinct = distinct op lists")
 ASSUMPTIONS = [
@@ -31,11 +40,15 @@ ASSUMPTIONS = [
     "curve extrema (bezierTools.calcCubicBounds/calcQuadraticBounds) are a parameter of the model; on outlines with "
     "off-curve points bounds/margins are compared against the oracle's own extrema computation, not the model",
     "contours with more than two off-curves before a `curve` point (super-beziers, invalid in UFO) are not generated",
-    "component graphs are acyclic; base glyphs are not edited after a referencing component's bounds were read "
-    "(eviction of component caches is property C03, finding F11)",
+    "component graphs are acyclic (also through names that are dangling at the moment) and at most 4 levels deep",
+    "a glyph is renamed only to a name that is not in the layer",
     "glyph.area / pointInside raising NotImplementedError on open contours is fontTools' documented 'undefined' "
     "and is accepted",
     "pointInside is cross-checked by the oracle only (exactly on polygons, away from the outline on curves)",
+    "reads made from inside notification callbacks are judged by the oracle only, and only for the notifying object "
+    "itself, a glyph's area inside its own notifications, and the unions (bounds, control bounds, margins) of the glyph the "
+    "running mutation is applied to; a glyph that is only built on the edited one may still hold stale component bounds "
+    "inside Glyph.ComponentsChanged (its components hear of the change one after the other): read, not judged",
 ]
 TRUSTED = [
     "fontTools 4.43 pens (PointToSegmentPen, BasePen, TransformPen, Bounds/ControlBounds/AreaPen, "
@@ -257,6 +270,7 @@ def gen_penerror_case(rng, tier):
 TRANSFORMS = [
     [1, 0, 0, 1], [1, 0, 0, 1], [-1, 0, 0, 1], [1, 0, 0, -1], [2, 0, 0, 2], ["1/2", 0, 0, "1/2"],
     [0, 1, -1, 0], [1, "1/2", 0, 1], ["3/2", 0, "1/4", -1], [0, 0, 0, 0], [1, 0, 0, 0],
+    [-1, 0, 0, -1], ["-3/4", "1/2", "1/2", 1], [0, "-5/4", "-1/2", 0], ["1/8", 0, 0, 3], [2, 1, 1, "1/2"],
 ]
 
 
@@ -308,8 +322,24 @@ def gen_case(rng, tier):
 
     def remember(name, contours, comps, anchors):
         glyphs[name] = dict(pats=[[p[2] is not None for p in c] for c in contours], n=[len(c) for c in contours],
-                            curvedc=[_is_curved_contour(c) for c in contours], comps=comps, anchors=len(anchors))
+                            opens=[bool(c) and c[0][2] == "move" for c in contours],
+                            curvedc=[_is_curved_contour(c) for c in contours], comps=[list(k) for k in comps],
+                            anchors=len(anchors))
         order.append(name)
+
+    def track_reverse(g, i, twice=False):
+        """keep the on/off-curve pattern of contour i in step with a reversal"""
+        pat = g["pats"][i]
+        if not pat:
+            return
+        if g["opens"][i]:
+            p = list(pat)
+            while p and not p[-1]:
+                p.pop()             # the reversing pen drops the trailing off-curves of an (invalid) open contour
+            g["pats"][i] = p if twice else p[::-1]
+            g["n"][i] = len(p)
+        elif not twice:
+            g["pats"][i] = [pat[0]] + pat[:0:-1]   # closed contours keep their first point
 
     for gi in range(nbase):
         name = "g%d" % gi
@@ -329,12 +359,14 @@ def gen_case(rng, tier):
                     [_delta(rng, mode), _delta(rng, mode)]])
         remember(name, contours, [], anchors)
     if in_font:
-        for ci in range(rng.choice([0, 1, 1, 2])):
+        for ci in range(rng.choice([0, 1, 1, 2, 2, 3])):
             name = "k%d" % ci
             ids = _Ids()
             comps = []
             for _ in range(rng.randint(1, 3)):
                 base = rng.choice(order) if rng.random() < 0.93 else "missing"
+                if ci and rng.random() < 0.45:
+                    base = "k%d" % (ci - 1)         # a chain: k2 -> k1 -> k0 -> g*
                 comps.append([base] + _transform(rng, mode))
             contours = []
             if rng.random() < 0.4:
@@ -354,8 +386,171 @@ def gen_case(rng, tier):
     def referenced(name):
         return any(any(k[0] == name for k in g["comps"]) for g in glyphs.values())
 
+    def reach(a, b, depth=0):
+        """does the glyph named a reference the name b (through any number of levels)?"""
+        g = glyphs.get(a)
+        if g is None or depth > 8:
+            return False
+        return any(k[0] == b or reach(k[0], b, depth + 1) for k in g["comps"])
+
+    def dependants(name):
+        return [x for x in order if x != name and reach(x, name)]
+
+    def dep_reads(x):
+        gx = glyphs[x]
+        res = [["gBounds", x], ["gCpb", x], ["gArea", x], ["gMargins", x], ["gAreaCached", x]]
+        for j in range(len(gx["comps"])):
+            res += [["kBounds", x, j], ["kCpb", x, j], ["kCached", x, j]]
+        return res
+
+    deleted = []
+    fresh_names = ["r%d" % i for i in range(6)]
+
+    def base_edit():
+        """an edit of a glyph other glyphs are built on, between reads of those glyphs"""
+        cands = [x for x in order if dependants(x)]
+        if deleted and rng.random() < 0.5:
+            name = None
+        elif cands and rng.random() < 0.85:
+            name = rng.choice(cands)
+        else:
+            name = rng.choice(order)
+        deps = dependants(name) if name else [x for x in order if any(reach(x, d) for d in deleted)]
+        if deps and rng.random() < 0.75:
+            for x in rng.sample(deps, min(len(deps), rng.randint(1, 2))):
+                rd = dep_reads(x)
+                for o in rng.sample(rd, rng.randint(1, min(4, len(rd)))):
+                    ops.append(o)
+        if name is None:
+            # re-add a deleted glyph (a new object under the old name), with a new outline
+            nm = rng.choice(deleted)
+            deleted.remove(nm)
+            ids = _Ids()
+            contours = [gen_contour(rng, mode, ids, rng.choice(["polygon", "polygon", "openline"]) if line_only else None)
+                        for _ in range(rng.choice([0, 1, 1, 2]))]
+            comps = []
+            if rng.random() < 0.3:
+                for b in rng.sample(order, min(len(order), 1)):
+                    if b != nm and not reach(b, nm):
+                        comps.append([b] + _transform(rng, mode))
+            ops.append(["newGlyph", nm, _coord(rng, mode, 0, 1000), _coord(rng, mode, 0, 1000), _vo(rng, mode), contours,
+                        comps, [], [0, 0]])
+            remember(nm, contours, comps, [])
+            name = nm
+        else:
+            g = glyphs[name]
+            nc, nk = len(g["n"]), len(g["comps"])
+            choices = ["gDelete", "gRename", "gMove"]
+            if nc:
+                choices += ["cMove", "cReverse", "cSetPoint", "cSetPoint", "cInsertPoint", "cRemovePoint", "cSetClockwise"]
+            if nk:
+                choices += ["kSetT", "kSetT", "kSetBase", "kMove"]
+            if not (mode == "exact" and curved(name)):
+                choices += ["setLeft"]
+            what = rng.choice(choices)
+            if what == "gDelete":
+                if len(order) < 2:
+                    return
+                ops.append(["gDelete", name])
+                order.remove(name)
+                del glyphs[name]
+                deleted.append(name)
+            elif what == "gRename":
+                pool = [n for n in fresh_names + deleted + ["missing"] if n not in glyphs and not reach(name, n)]
+                if not pool:
+                    return
+                new = rng.choice(pool)
+                ops.append(["gRename", name, new])
+                glyphs[new] = glyphs.pop(name)
+                order[order.index(name)] = new
+                if new in deleted:
+                    deleted.remove(new)
+                if new in fresh_names:
+                    fresh_names.remove(new)
+                name = new
+            elif what == "gMove":
+                ops.append(["gMove", name, _delta(rng, mode), _delta(rng, mode)])
+            elif what == "setLeft":
+                ops.append(["setLeft", name, _delta(rng, mode)])
+            elif what == "cMove":
+                ops.append(["cMove", name, rng.randrange(nc), _delta(rng, mode), _delta(rng, mode)])
+            elif what == "cReverse":
+                i = rng.randrange(nc)
+                ops.append(["cReverse", name, i])
+                track_reverse(g, i)
+            elif what == "cSetClockwise":
+                i = rng.randrange(nc)
+                ops.append(["cSetClockwise", name, i, rng.random() < 0.5])
+                g["pats"][i] = None
+            elif what == "cSetPoint":
+                i = rng.randrange(nc)
+                if not g["n"][i]:
+                    return
+                j = rng.randrange(g["n"][i]) if rng.random() < 0.95 else g["n"][i] + rng.randint(0, 2)
+                ops.append(["cSetPoint", name, i, j, _coord(rng, mode, -100, 500), _coord(rng, mode, -100, 500)])
+            elif what == "cInsertPoint":
+                i = rng.randrange(nc)
+                pat = g["pats"][i]
+                if not pat:
+                    return
+                js = [j for j in range(1, len(pat) + 1) if pat[j - 1]]
+                if not js:
+                    return
+                j = rng.choice(js)
+                ops.append(["cInsertPoint", name, i, j,
+                            [_coord(rng, mode, -100, 500), _coord(rng, mode, -100, 500), "line", False, None, None]])
+                pat.insert(j, True)
+                g["n"][i] += 1
+            elif what == "cRemovePoint":
+                i = rng.randrange(nc)
+                pat = g["pats"][i]
+                if not pat:
+                    return
+                js = [j for j in range(1, len(pat)) if pat[j] and pat[j - 1]]
+                if not js:
+                    return
+                j = rng.choice(js)
+                ops.append(["cRemovePoint", name, i, j])
+                del pat[j]
+                g["n"][i] -= 1
+            elif what == "kSetT":
+                j = rng.randrange(nk)
+                t = _transform(rng, mode)
+                ops.append(["kSetT", name, j] + t)
+                if rng.random() < 0.25:
+                    # assigned again: an equal value is no change
+                    ops.append(rng.choice(dep_reads(name)))
+                    ops.append(["kSetT", name, j] + t)
+            elif what == "kSetBase":
+                j = rng.randrange(nk)
+                pool = [b for b in order + ["missing"] if b != name and not reach(b, name)]
+                if not pool:
+                    return
+                b = rng.choice(pool)
+                ops.append(["kSetBase", name, j, b])
+                g["comps"][j] = [b] + list(g["comps"][j][1:])
+            elif what == "kMove":
+                ops.append(["kMove", name, rng.randrange(nk), _delta(rng, mode), _delta(rng, mode)])
+        deps = dependants(name)
+        if name in glyphs and rng.random() < 0.5:
+            deps = deps + [name]
+        if deps and rng.random() < 0.92:
+            for x in rng.sample(deps, min(len(deps), rng.randint(1, 3))):
+                rd = dep_reads(x)
+                for o in rng.sample(rd, rng.randint(1, min(5, len(rd)))):
+                    ops.append(o)
+                if rng.random() < 0.3 and not (mode == "exact" and curved(x)):
+                    ops.append([rng.choice(["setLeft", "setRight", "setBottom", "setTop"]), x, _delta(rng, mode)])
+                    ops.append(["gMargins", x])
+                    ops.append(["gMetrics", x])
+                    if rng.random() < 0.5:
+                        ops.append(rng.choice(dep_reads(x)))
+
     nops = rng.randint(6, 22) if tier == "quick" else rng.randint(8, 40)
     for _ in range(nops):
+        if in_font and rng.random() < 0.3:
+            base_edit()
+            continue
         name = rng.choice(order)
         g = glyphs[name]
         nc, nk, na = len(g["n"]), len(g["comps"]), g["anchors"]
@@ -368,9 +563,9 @@ def gen_case(rng, tier):
                     ["cPoints", name, i], ["cSegments", name, i]]
         if nk:
             j = rng.randrange(nk)
-            obs += [["kBounds", name, j], ["kCpb", name, j], ["kTransform", name, j]]
+            obs += [["kBounds", name, j], ["kCpb", name, j], ["kTransform", name, j], ["kCached", name, j]]
         obs += [["gBounds", name], ["gCpb", name], ["gArea", name], ["gMargins", name], ["gMetrics", name],
-                ["gAnchors", name], ["gImage", name]]
+                ["gAnchors", name], ["gImage", name], ["gAreaCached", name]]
         if r < 0.42:
             for o in rng.sample(obs, rng.randint(1, min(4, len(obs)))):
                 ops.append(o)
@@ -445,10 +640,8 @@ def gen_case(rng, tier):
                 ops.append(o)
         ops.append(mut)
         # keep the on/off pattern in step (reverse and setStartPoint move points around)
-        if mut[0] == "cReverse":
-            pat = g["pats"][mut[2]]
-            if pat:
-                g["pats"][mut[2]] = [pat[0]] + pat[:0:-1]   # closed contours keep their first point
+        if mut[0] in ("cReverse", "cReverse2"):
+            track_reverse(g, mut[2], twice=mut[0] == "cReverse2")
         elif mut[0] == "cSetStart":
             pat = g["pats"][mut[2]]
             n = g["n"][mut[2]]
@@ -462,11 +655,27 @@ def gen_case(rng, tier):
             if mut[0] in ("setLeft", "setRight", "setBottom", "setTop"):
                 ops.append(["gMargins", name])
                 ops.append(["gMetrics", name])
-    return dict(mode=mode, ops=ops)
+    case = dict(mode=mode, ops=ops)
+    if in_font and rng.random() < 0.14:
+        # an observer (a view, a tool) that looks at the geometry from INSIDE the notifications the mutations post
+        names = [n for ns in WATCHED.values() for n in ns if rng.random() < 0.7]
+        if not names:
+            names = ["Contour.PointsChanged"]
+        case["watch"] = dict(names=names, cross=rng.random() < 0.5)
+    return case
+
+
+# the notifications an in-callback reader is registered for, per kind of object
+WATCHED = {
+    "contour": ("Contour.PointsChanged", "Contour.WindingDirectionChanged", "Contour.Changed"),
+    "glyph": ("Glyph.ContoursChanged", "Glyph.ComponentsChanged", "Glyph.Changed"),
+    "component": ("Component.TransformationChanged", "Component.BaseGlyphChanged", "Component.BaseGlyphDataChanged",
+                  "Component.Changed"),
+}
 
 
 def generate(rng, tier):
-    n = 2000 if tier == "quick" else 25000
+    n = 2000 if tier == "quick" else 20000
     for _ in range(n):
         yield gen_case(rng, tier)
 
@@ -545,10 +754,22 @@ def enc_op(op, mode):
                 [[ratom(frac(a[0])), ratom(frac(a[1]))] for a in anchors],
                 [ratom(frac(image[0])), ratom(frac(image[1]))]]
     if k in ("cBounds", "cCpb", "cArea", "cOpen", "cPoints", "cSegments", "kBounds", "kCpb", "kTransform", "cReverse",
-             "cReverse2"):
+             "cReverse2", "kCached"):
         return [Atom(k), op[1], op[2]]
-    if k in ("gBounds", "gCpb", "gArea", "gMargins", "gMetrics", "gAnchors", "gImage"):
+    if k in ("gBounds", "gCpb", "gArea", "gMargins", "gMetrics", "gAnchors", "gImage", "gAreaCached", "gDelete"):
         return [Atom(k), op[1]]
+    if k == "gRename":
+        return [Atom(k), op[1], op[2]]
+    if k == "cSetPoint":
+        return [Atom(k), op[1], op[2], op[3], ratom(frac(op[4])), ratom(frac(op[5]))]
+    if k == "cInsertPoint":
+        return [Atom(k), op[1], op[2], op[3], _enc_point(op[4])]
+    if k == "cRemovePoint":
+        return [Atom(k), op[1], op[2], op[3]]
+    if k == "kSetT":
+        return [Atom(k), op[1], op[2]] + [ratom(frac(x)) for x in op[3:9]]
+    if k == "kSetBase":
+        return [Atom(k), op[1], op[2], op[3]]
     if k in ("cMove", "kMove", "aMove"):
         return [Atom(k), op[1], op[2], ratom(frac(op[3])), ratom(frac(op[4]))]
     if k in ("gMove", "iMove"):
@@ -565,7 +786,10 @@ def enc_op(op, mode):
 
 
 def model_lines(case):
-    return [enc_op(op, case.get("mode", "exact")) for op in case["ops"]]
+    # histories with an in-callback reader are judged by the oracle only: its reads fill caches at moments the
+    # model's operation granularity does not have
+    mode = "float" if case.get("watch") else case.get("mode", "exact")
+    return [enc_op(op, mode) for op in case["ops"]]
 
 
 # ---------------------------------------------------------------------------------------
@@ -584,6 +808,146 @@ def _pt_out(p):
     return [ratom(p.x), ratom(p.y), Atom(p.segmentType or "off"), bool(p.smooth), opt(p.name), opt(p.identifier)]
 
 
+class _Watcher(object):
+    """An observer that looks at the geometry from INSIDE notification callbacks, as a glyph view or a tool does.
+    What it is given must equal an independent computation over the outline as it is at that moment.  Judged:
+    * inside a notification of a contour / component: that object's own bounds, control bounds (and area);
+    * inside a notification of a glyph: its area (a representation of its own);
+    * inside the notifications of the glyph the running mutation was applied to, and of its contours and
+      components: the glyph's bounds, control bounds and margins and its components' bounds too (the unions
+      `Glyph.bounds` builds on the fly from its parts).
+    Not judged (the reads are made all the same, so that what they leave in the caches meets the rest of the
+    mutation): unions of a glyph that is only *built on* the changed one - the change reaches its components
+    one observer at a time, a sibling component may not have heard yet - and, with `cross`, the bounds and area
+    of every other glyph of the layer."""
+
+    def __init__(self, impl, spec, mode):
+        self.impl = impl
+        self.names = set(spec.get("names") or ())
+        self.cross = bool(spec.get("cross"))
+        self.mode = mode
+        self.busy = False
+        self.viol = []
+        self.reads = 0
+        self.judged = 0
+
+    def attach(self, kind, obj):
+        if obj.dispatcher is None:
+            return
+        for n in WATCHED[kind]:
+            if n in self.names and not obj.hasObserver(self, n):
+                obj.addObserver(self, "cb", n)
+
+    def cb(self, notification):
+        if self.busy:
+            return
+        self.busy = True
+        try:
+            self.look(notification)
+        except RecursionError:
+            raise
+        except Exception:
+            pass
+        finally:
+            self.busy = False
+
+    def locate(self, glyph):
+        """the name under which the layer holds this very glyph object right now"""
+        impl = self.impl
+        if glyph is None or not impl.in_font or impl.font is None:
+            return None
+        name = glyph.name
+        if name is None or name not in impl.layer or impl.layer[name] is not glyph:
+            return None
+        return name
+
+    def read(self, snap, op, getter, judged=True):
+        try:
+            raw = getter()
+            errname = None
+        except RecursionError:
+            raise
+        except Exception as e:
+            raw = None
+            errname = type(e).__name__
+        self.reads += 1
+        if not judged or self.viol:
+            return
+        self.judged += 1
+        orc = Oracle(snap, self.mode)
+        orc.real = raw
+        for v in orc.judge(op, None, errname, snap):
+            v["signature"] += "@" + self.where
+            v["inside"] = self.where
+            self.viol.append(v)
+
+    def look(self, notification):
+        from defcon import Contour, Glyph, Component
+        obj = notification.object
+        self.where = notification.name
+        snap = snap_world(self.impl)
+        if isinstance(obj, Contour):
+            glyph = obj.glyph
+            name = self.locate(glyph)
+            if name is None:
+                return
+            idx = [i for i, c in enumerate(glyph) if c is obj]
+            if not idx:
+                return
+            i = idx[0]
+            self.read(snap, ["cBounds", name, i], lambda: obj.bounds)
+            self.read(snap, ["cCpb", name, i], lambda: obj.controlPointBounds)
+            self.read(snap, ["cArea", name, i],
+                      lambda: (obj.getRepresentation("defcon.contour.area"), obj.clockwise, obj.area))
+            direct = name == self.impl.target
+            self.read(snap, ["gBounds", name], lambda: glyph.bounds, judged=direct)
+            self.read(snap, ["gCpb", name], lambda: glyph.controlPointBounds, judged=direct)
+            self.read(snap, ["gArea", name], lambda: glyph.area, judged=False)
+        elif isinstance(obj, Glyph):
+            glyph = obj
+            name = self.locate(glyph)
+            if name is None:
+                return
+            direct = name == self.impl.target
+            self.read(snap, ["gBounds", name], lambda: glyph.bounds, judged=direct)
+            self.read(snap, ["gCpb", name], lambda: glyph.controlPointBounds, judged=direct)
+            self.read(snap, ["gArea", name], lambda: glyph.area)
+            self.read(snap, ["gMargins", name],
+                      lambda: (glyph.leftMargin, glyph.rightMargin, glyph.bottomMargin, glyph.topMargin), judged=direct)
+            for j, k in enumerate(glyph.components):
+                self.read(snap, ["kBounds", name, j], lambda k=k: k.bounds, judged=direct)
+                self.read(snap, ["kCpb", name, j], lambda k=k: k.controlPointBounds, judged=direct)
+        elif isinstance(obj, Component):
+            glyph = obj.glyph
+            name = self.locate(glyph)
+            if name is None:
+                return
+            idx = [j for j, k in enumerate(glyph.components) if k is obj]
+            if not idx:
+                return
+            j = idx[0]
+            direct = name == self.impl.target
+            self.read(snap, ["kBounds", name, j], lambda: obj.bounds)
+            self.read(snap, ["kCpb", name, j], lambda: obj.controlPointBounds)
+            self.read(snap, ["gBounds", name], lambda: glyph.bounds, judged=direct)
+            self.read(snap, ["gCpb", name], lambda: glyph.controlPointBounds, judged=direct)
+            self.read(snap, ["gArea", name], lambda: glyph.area, judged=False)
+        else:
+            return
+        if self.cross:
+            for other in sorted(self.impl.layer.keys()):
+                g2 = self.impl.layer[other]
+                if g2 is glyph:
+                    continue
+                self.read(snap, ["gBounds", other], lambda: g2.bounds, judged=False)
+                self.read(snap, ["gCpb", other], lambda: g2.controlPointBounds, judged=False)
+                self.read(snap, ["gArea", other], lambda: g2.area, judged=False)
+
+    def drain(self):
+        v, self.viol = self.viol, []
+        return v
+
+
 class Impl(object):
     def __init__(self):
         self.in_font = True
@@ -594,6 +958,8 @@ class Impl(object):
         self.layer = None
         self.raw = None       # the uncanonicalised answer of the last observation (for the oracle)
         self.mid = None       # the point list between the two reversals of cReverse2
+        self.watcher = None   # the in-callback reader, when the case asks for one
+        self.target = None    # the name of the glyph the running operation is applied to
 
     def glyph(self, name):
         if self.in_font:
@@ -601,6 +967,11 @@ class Impl(object):
                 raise KeyError(name)
             return self.layer[name]
         return self.glyphs[name]
+
+    def has_glyph(self, name):
+        if self.in_font:
+            return self.font is not None and name in self.layer
+        return name in self.glyphs
 
     def new_glyph(self, op):
         from defcon import Font, Glyph
@@ -648,6 +1019,12 @@ class Impl(object):
         self.keep.extend(g.components)
         self.keep.extend(g.anchors)
         self.keep.append(g.image)
+        if self.watcher is not None:
+            self.watcher.attach("glyph", g)
+            for c in g:
+                self.watcher.attach("contour", c)
+            for k in g.components:
+                self.watcher.attach("component", k)
         return Atom("ok")
 
     def do(self, op, exact_area):
@@ -696,6 +1073,49 @@ class Impl(object):
             return _box(b)
         if k == "kTransform":
             return [Atom("transform")] + [ratom(x) for x in g.components[op[2]].transformation]
+        if k == "kCached":
+            comp = g.components[op[2]]
+            return [Atom("cached"), bool(comp.hasCachedRepresentation("defcon.component.bounds")),
+                    bool(comp.hasCachedRepresentation("defcon.component.controlPointBounds"))]
+        if k == "gAreaCached":
+            return [Atom("cached"), bool(g.hasCachedRepresentation("defcon.glyph.area"))]
+        if k == "cSetPoint":
+            c = g[op[2]]
+            p = c[op[3]]
+            p.x = pynum(op[4])
+            p.y = pynum(op[5])
+            c.postNotification("Contour.PointsChanged")
+            c.dirty = True
+            return ok
+        if k == "cInsertPoint":
+            c = g[op[2]]
+            q = op[4]
+            pt = c.pointClass((pynum(q[0]), pynum(q[1])), segmentType=q[2], smooth=q[3], name=q[4], identifier=q[5])
+            c.insertPoint(op[3], pt)
+            return ok
+        if k == "cRemovePoint":
+            c = g[op[2]]
+            c.removePoint(c[op[3]])
+            return ok
+        if k == "kSetT":
+            g.components[op[2]].transformation = tuple(pynum(x) for x in op[3:9])
+            return ok
+        if k == "kSetBase":
+            g.components[op[2]].baseGlyph = op[3]
+            return ok
+        if k == "gDelete":
+            if self.in_font:
+                del self.layer[op[1]]
+            else:
+                del self.glyphs[op[1]]
+            return ok
+        if k == "gRename":
+            if op[2] != op[1] and self.has_glyph(op[2]):
+                raise ValueError("the harness renames to unused names only")
+            g.name = op[2]
+            if not self.in_font:
+                self.glyphs[op[2]] = self.glyphs.pop(op[1])
+            return ok
         if k == "gBounds":
             b = self.raw = g.bounds
             return Atom("curved") if _glyph_curved(self, op[1]) else _box(b)
@@ -823,7 +1243,8 @@ def snap_world(impl):
 
 
 OBSERVATIONS = ("cBounds", "cCpb", "cArea", "cOpen", "cPoints", "cSegments", "kBounds", "kCpb", "kTransform",
-                "gBounds", "gCpb", "gArea", "gMargins", "gMetrics", "gAnchors", "gImage", "inside")
+                "gBounds", "gCpb", "gArea", "gMargins", "gMetrics", "gAnchors", "gImage", "inside", "kCached",
+                "gAreaCached")
 
 
 def run_impl(case):
@@ -833,6 +1254,9 @@ def run_impl(case):
     logging.disable(logging.CRITICAL)
     mode = case.get("mode", "exact")
     impl = Impl()
+    watch = case.get("watch")
+    if watch:
+        impl.watcher = _Watcher(impl, watch, mode)
     outs = []
     viol = []
     stats = {"mode." + mode: 1, "len": len(case["ops"])}
@@ -842,6 +1266,7 @@ def run_impl(case):
     for step, op in enumerate(case["ops"]):
         before = after
         orc = Oracle(before, mode)
+        impl.target = None if op[0] in ("world", "newGlyph") else (op[2] if op[0] == "inside" else op[1])
         try:
             val = impl.do(op, orc.snap_area)
             errname = None
@@ -865,6 +1290,11 @@ def run_impl(case):
                 stats["mutations_effective"] = stats.get("mutations_effective", 0) + 1
             elif k in OBSERVATIONS and errname is None and (op[1] if k != "inside" else op[2]) in changed:
                 nontrivial = True
+        if not viol and impl.watcher is not None:
+            for v in impl.watcher.drain():
+                v["step"] = step
+                v["op"] = op
+                viol.append(v)
         if not viol:
             orc.real = impl.raw
             orc.twice_mid = impl.mid
@@ -875,10 +1305,14 @@ def run_impl(case):
                 viol.append(v)
         if k == "world":
             outs.append(Atom("ok"))
-        elif mode == "float" or k == "inside":
+        elif mode == "float" or k == "inside" or watch:
             outs.append(Atom("skip"))
         else:
             outs.append(val)
+    if impl.watcher is not None:
+        stats["watch.cases"] = 1
+        stats["watch.reads"] = impl.watcher.reads
+        stats["watch.judged"] = impl.watcher.judged
     return dict(out=outs, viol=viol[:1], info=dict(nontrivial=nontrivial, stats=stats))
 
 
